@@ -11,6 +11,21 @@ pub struct ThreadPool {
 
 type Job = Box<dyn FnOnce() + Send + 'static>;
 
+/// verification hook (compiled only with `--cfg rws_verif`): the harness registers a callback
+/// that observes the synchronisation points of the pool. kinds: 1 = receiver lock taken,
+/// 2 = recv statement completed with a job (lock released), 3 = job returned, 4 = execute
+/// is about to send (worker = usize::MAX), 5 = job panicked and was caught,
+/// 6 = recv statement completed without a job (lock released)
+#[cfg(rws_verif)]
+pub static VERIF_EVENT: std::sync::OnceLock<fn(usize, u8)> = std::sync::OnceLock::new();
+
+#[cfg(rws_verif)]
+fn verif_event(worker: usize, kind: u8) {
+    if let Some(callback) = VERIF_EVENT.get() {
+        callback(worker, kind);
+    }
+}
+
 impl ThreadPool {
     pub fn new(size: usize) -> ThreadPool {
         assert!(size > 0);
@@ -35,6 +50,8 @@ impl ThreadPool {
             F: FnOnce() + Send  + 'static,
     {
         let job = Box::new(f);
+        #[cfg(rws_verif)]
+        verif_event(usize::MAX, 4);
         let boxed_send = self.sender.send(job);
         if boxed_send.is_err() {
             eprintln!("unable to send job: {}", boxed_send.err().unwrap());
@@ -60,7 +77,11 @@ impl Worker {
             if boxed_lock.is_err() {
                 eprintln!("Worker {} -> unable to acquire lock {}", id, boxed_lock.err().unwrap());
             } else {
+                #[cfg(rws_verif)]
+                verif_event(id, 1);
                 let boxed_job = boxed_lock.unwrap().recv();
+                #[cfg(rws_verif)]
+                verif_event(id, if boxed_job.is_ok() { 2 } else { 6 });
                 if boxed_job.is_err() {
                     eprintln!("Worker {} -> unable to get job to execute {}", id, boxed_job.err().unwrap());
                 } else {
@@ -73,6 +94,8 @@ impl Worker {
                     if boxed_result.is_err() {
                         eprintln!("Worker {} -> job panicked, worker keeps running", id);
                     }
+                    #[cfg(rws_verif)]
+                    verif_event(id, if boxed_result.is_ok() { 3 } else { 5 });
                 }
 
             }
